@@ -284,9 +284,13 @@ func (d *DStarLite) Step() bool {
 
 // MoveTo moves to n in the world graph.
 func (d *DStarLite) MoveTo(n graph.Node) {
-	d.last = d.s
-	d.s = d.model.Node(n.ID()).(*dStarLiteNode)
-	d.keyModifier += d.heuristic(d.last, d.s)
+	// d.last is the location for which the key modifier is up
+	// to date; Step moves d.s without touching either, so the
+	// movement to account for starts at d.last, not at d.s.
+	s := d.model.Node(n.ID()).(*dStarLiteNode)
+	d.keyModifier += d.heuristic(d.last, s)
+	d.last = s
+	d.s = s
 }
 
 // UpdateWorld updates or adds edges in the world graph. UpdateWorld will
